@@ -77,7 +77,10 @@ def r1(ctx):
         ctx.check("C03.R1", hn in cls.methods, "handler|" + s, "gunicorn/arbiter.py: Arbiter.%s" % hn,
                   "signal SIG%s is queued by the master but there is no method %s: it would be logged as unhandled and ignored" % (s, hn), "handler exists")
     # registration: every SIGNALS member -> self.signal, SIGCHLD -> handle_chld
-    f_is = ctx.fn(repo.func(ARB + ".init_signals"))
+    # (wherever the arbiter installs its handlers: init_signals, or start() with init_signals folded into it)
+    regfs = [ff for ff in cls.methods.values() if calls_to(repo, ff, "signal.signal")]
+    ctx.need(len(regfs) == 1, "C03.R1: expected one Arbiter method that installs signal handlers, found %s" % sorted(ff.name for ff in regfs))
+    f_is = ctx.fn(regfs[0])
     regs = calls_to(repo, f_is, "signal.signal")
     chld = [c for c in regs if repo.resolve(f_is.module, f_is, c.args[0]) == "signal.SIGCHLD"]
     ctx.check("C03.R1", len(chld) == 1 and repo.resolve(f_is.module, f_is, chld[0].args[1]) == "self.handle_chld", key(f_is, "SIGCHLD"), site(f_is),
